@@ -561,8 +561,8 @@ func cbCloses(m *meta, r *rand.Rand, round int) {
 	select {
 	case <-returned:
 	case <-time.After(3 * time.Second):
-		for _, p := range []string{"C07", "C08"} {
-			m.violate(p, ctx+": Close called from an expiry callback did not return within 3 s", ctx)
+		for _, p := range []string{"C07", "C08", "C20"} {
+			m.violate(p, ctx+": Close called from an expiry callback did not return within 3 s (callbacks run with no cache lock held and may use the cache, Close included)", ctx)
 		}
 	}
 	// (b) Close while a callback is blocked
